@@ -254,7 +254,7 @@ func byteValue(v ssa.Value, cval func(ssa.Value, int) (int64, bool)) (int64, boo
 
 func init() {
 	register(&Rule{ID: "R100", Name: "ESC-INVARIANT", Floor: 11,
-		Text: "AppendQuotedString keeps the invariant `buf = quote + escaped(str[:p]) and str[p:i] is a pending run of bytes that need no escaping`: (prologue) on entry to the loop the opening quote has been appended and i = p = 0; (step) one iteration is evaluated from the loop header with i, p and buf symbolic, for nine classes of the character at i (plain ASCII, newline, quote, control byte, invalid byte, U+2028, U+2029, other multi-byte rune, a genuine U+FFFD): a character that needs no escape appends nothing, advances i by the character's width and leaves p alone; a character that needs one appends exactly the pending run str[p:i] followed by its escape (\\n, \\\", \\u0001, \\ufffd, \\u2028, \\u2029), advances i by the width and sets p to the new i; (epilogue) after the loop str[p:] and the closing quote are appended and that buffer is returned. Every string is covered by induction over its characters; R28 decides the escape text of all 256 single bytes",
+		Text: "AppendQuotedString keeps the invariant `buf = quote + escaped(str[:p]) and str[p:i] is a pending run of bytes that need no escaping`: (prologue) on entry to the loop the opening quote has been appended and i = p = 0; (step) one iteration is evaluated from the loop header with i, p and buf symbolic, for nine classes of the character at i (plain ASCII, newline, quote, control byte, invalid byte, U+2028, U+2029, other multi-byte rune, a genuine U+FFFD): a character that needs no escape appends nothing, advances i by the character's width and leaves p alone; a character that needs one appends exactly the pending run str[p:i] followed by its escape (\\n, \\\", \\u0001, \\ufffd, \\u2028, \\u2029), advances i by the width and sets p to the new i (U+2028 and U+2029 may take either form: both denote the same string); (epilogue) after the loop str[p:] and the closing quote are appended and that buffer is returned. Every string is covered by induction over its characters; R28 decides the escape text of all 256 single bytes",
 		Run:  runR100})
 }
 
@@ -511,7 +511,10 @@ func runR100(c *Ctx) {
 			continue
 		}
 		got := strings.Join(outs, "")
-		if cl.esc == "" {
+		// U+2028/2029 are legal inside a JSON string: the escape is a courtesy to JavaScript consumers, copying
+		// them with the pending run denotes the same string
+		asRaw := cl.esc == "" || (cl.r == 0x2028 || cl.r == 0x2029) && got == ""
+		if asRaw {
 			if got != "" {
 				problems = append(problems, fmt.Sprintf("%q is appended although the character needs no escape", got))
 			}
@@ -526,7 +529,23 @@ func runR100(c *Ctx) {
 			if got != want {
 				problems = append(problems, fmt.Sprintf("appends %s, the invariant requires %s", got, want))
 			}
-			if pNew != iNew {
+			// the same position, possibly computed twice (`p = i + 1; i++`)
+			offI := func(v ssa.Value) (int64, bool) {
+				if v == ssa.Value(iPhi) {
+					return 0, true
+				}
+				if add, ok := v.(*ssa.BinOp); ok && add.Op == token.ADD && pe.resolve(add.X) == ssa.Value(iPhi) {
+					return cval(add.Y, 0)
+				}
+				return 0, false
+			}
+			samePos := pNew == iNew
+			if a, ok1 := offI(pNew); ok1 {
+				if b, ok2 := offI(iNew); ok2 && a == b {
+					samePos = true
+				}
+			}
+			if !samePos {
 				problems = append(problems, fmt.Sprintf("the start of the pending run becomes %s, not the new cursor: the next flush repeats or skips bytes", describe(pNew)))
 			}
 			if lastAppend == nil || bufNew != ssa.Value(lastAppend) {
@@ -534,7 +553,7 @@ func runR100(c *Ctx) {
 			}
 		}
 		if len(problems) == 0 {
-			if cl.esc == "" {
+			if asRaw {
 				c.ok(key, p.instrPos(cLoad), fmt.Sprintf("nothing appended, i += %d, p unchanged", cl.width))
 			} else {
 				c.ok(key, p.instrPos(cLoad), fmt.Sprintf("appends str[p:i] + %s, i += %d, p = i", cl.esc, cl.width))
